@@ -477,14 +477,18 @@ def property_dependency_check(prop):
     if dep is None:
         return
 
+    # A dependency refers to a Property of the same Section.
     try:
-        dep_obj = prop.parent[dep]
+        dep_obj = prop.parent.properties[dep]
     except KeyError:
         msg = "Property refers to a non-existent dependency object"
         yield ValidationError(prop, msg, LABEL_WARNING, validation_id)
         return
 
-    if prop.dependency_value not in dep_obj.values[0]:
+    # Compare the text forms: the dependency may hold no or non-string values
+    # and the dependency value may not be set.
+    dep_values = dep_obj.values
+    if not dep_values or str(prop.dependency_value) not in str(dep_values[0]):
         msg = "Dependency-value is not equal to value of the property's dependency"
         yield ValidationError(prop, msg, LABEL_WARNING, validation_id)
 
